@@ -178,6 +178,12 @@ class Verifier:
         if tystr.startswith("=emptyset:"):
             ety = parse_ty(tystr[10:])
             return SSet(z3.K(sort_of(ety), z3.BoolVal(False)), ety)
+        if tystr.startswith("=emptylist:"):
+            from .core import slist_of
+
+            r = slist_of(I.ctx, [], parse_ty(tystr[11:]))
+            r.immutable = False
+            return r
         if tystr.startswith("="):
             return eval(tystr[1:], {"Ellipsis": Ellipsis})
         if tystr == "Opaque":
@@ -496,6 +502,10 @@ class Verifier:
         return False
 
     def obj_attr_hook(self, I, base, attr, node):
+        key = f"{base.cls.rsplit('.', 1)[-1]}.{attr}"
+        pol = self.c.attrs.get(key) or self.default_policies.get("attrs", {}).get(key)
+        if callable(pol):
+            return lambda I2, *a, **k: pol(I2, [base] + list(a), k, node)
         return _MISSING
 
     def on_setattr(self, I, base, attr, v, node):
